@@ -386,7 +386,7 @@ def run(chk: Check):
     g.decide({"s": ("field", ("HeaderDescriptor", 64))}, [({"s": Mv}, "accept")] + [({"s": v}, "reject") for v in bitflips(Mv, 32) + [0]], what="{0xBEDA107F}")
     g = Gate(chk, "hds:signature", "disk/hdd.py", "HDS.__init__")
     v1, v2 = b"WithoutFreeSpace", b"WithouFreSpacExt"
-    g.decide({"s": ("field", ("pvd_header", 0))}, [({"s": v1}, "accept"), ({"s": v2}, "accept")] + [({"s": v}, "reject") for v in byteflips(v1)[:40] + byteflips(v2)[:40] + [b"\0" * 16]],
+    g.decide({"s": ("field", ("pvd_header", 0))}, [({"s": v1}, "accept"), ({"s": v2}, "accept")] + [({"s": v}, "reject") for v in byteflips(v1) + byteflips(v2) + [b"\0" * 16, v1[:8], v1 + b"x"]],
              what="{v1, v2 signatures}")
     octx = chk.func("disk/hdd.py", "HDD.open")
     ty = None
@@ -456,7 +456,7 @@ def run(chk: Check):
     ectx = chk.func(rel, "Envelope.__init__")
     g = Gate(chk, "envelope:magic", rel, "Envelope.__init__")
     Me = b"DataTransformEnvelope"
-    g.decide({"m": ("field", ("EnvelopeFileHeader", 0))}, [({"m": Me}, "accept")] + [({"m": v}, "reject") for v in byteflips(Me)[:64] + [b""]], what="{b'DataTransformEnvelope'}")
+    g.decide({"m": ("field", ("EnvelopeFileHeader", 0))}, [({"m": Me}, "accept")] + [({"m": v}, "reject") for v in byteflips(Me) + [b"", Me[:8]]], what="{b'DataTransformEnvelope'}")
     g = Gate(chk, "envelope:version", rel, "Envelope.__init__")
     g.decide({"v": ("field", ("EnvelopeFileHeader", 508))}, [({"v": v}, "accept" if v == 2 else "reject") for v in (0, 1, 2, 3, 4, 0x102, 0xFFFFFFFF)], what="{2}")
     # required attributes: the loop over a literal tuple
